@@ -10,6 +10,8 @@ import (
 	"fmt"
 	"math"
 	"os"
+	"runtime"
+	"time"
 )
 
 type replayVal struct {
@@ -238,6 +240,22 @@ func Symbolic() bool { return false }
 // Spawned / RunSpawned exist only under the engine's sequential mode.
 func Spawned() int     { return 0 }
 func RunSpawned(i int) {}
+
+// Quiesce returns when no other goroutine can make progress (engine: exact, without
+// advancing virtual time; natively: a short real sleep).
+func Quiesce() { time.Sleep(50 * time.Millisecond) }
+
+// AdvanceTime fires the earliest armed timer under the engine's virtual clock;
+// natively real time passes on its own, so this only waits a little.
+func AdvanceTime() bool { time.Sleep(20 * time.Millisecond); return true }
+
+// NowNanos is the virtual clock (engine) / monotonic time since process start (native).
+func NowNanos() int64 { return int64(time.Since(startTime)) }
+
+var startTime = time.Now()
+
+// NumTasks is the number of live goroutines known to the engine (native: runtime's count).
+func NumTasks() int { return runtime.NumGoroutine() }
 
 // WatchBegin/WatchHits/WatchEnd: frame-condition tracking (engine only).
 func WatchBegin(tag string, root any) {}
